@@ -222,6 +222,9 @@ theorem step_good (spec : Nat → UpSpec) (n p : Nat) (hp : p < n) (s : St) (h :
     | ok => exact ⟨⟨fun b hb => h.1 b (h2 ▸ hb), rfl⟩, by simp⟩
     | raised => exact ⟨⟨fun b hb => h.1 b (h2 ▸ hb), rfl⟩, by simp⟩
     | blocked => exact absurd hres h1
+  | enq frame =>
+    simp only [step]
+    exact ⟨⟨h.1, h.2⟩, by simp⟩
 
 /-- Any sequence of operations (with any failures anywhere): no lock stays held, nothing blocks. -/
 theorem run_good (spec : Nat → UpSpec) (n p : Nat) (hp : p < n) (s : St) (h : AllFree s) (ops : List Op) :
